@@ -36,3 +36,33 @@ pub fn within(outer: &[u8], inner: &[u8]) -> bool {
     let i1 = i0 + inner.len();
     i0 >= o0 && i1 <= o1
 }
+
+/// Debug aid: route rs-matter's `log` output to stderr with virtual timestamps when `VH_LOG`
+/// is set (`VH_LOG=trace|debug|info`). Never used by oracles.
+pub fn init_stderr_log() {
+    struct L;
+    impl log::Log for L {
+        fn enabled(&self, _: &log::Metadata) -> bool {
+            true
+        }
+        fn log(&self, r: &log::Record) {
+            eprintln!(
+                "[{} {} t={}] {}",
+                r.level(),
+                r.target(),
+                crate::sim::clock::now().saturating_sub(1_000_000_000),
+                r.args()
+            );
+        }
+        fn flush(&self) {}
+    }
+    static LOGGER: L = L;
+    if let Ok(v) = std::env::var("VH_LOG") {
+        let _ = log::set_logger(&LOGGER);
+        log::set_max_level(match v.as_str() {
+            "trace" => log::LevelFilter::Trace,
+            "info" => log::LevelFilter::Info,
+            _ => log::LevelFilter::Debug,
+        });
+    }
+}
